@@ -67,6 +67,23 @@ type gstate struct {
 type variant struct {
 	postCm bool // cm / form matrix concatenated on the wrong side: CTM' = CTM x M
 	postTd bool // Td family applied on the wrong side: Tlm' = Tlm x T
+	keepTm bool // Q keeps the current Tm / Tlm instead of the ones present at the matching q
+}
+
+// saved is one entry of the q/Q stack.
+//
+// ISO 32000-1 allows q/Q only outside text objects (Figure 9), where Tm and Tlm are dead (BT resets
+// them), so for every ISO-valid program it is unobservable whether q saves them. tabula also accepts
+// q ... Q INSIDE a text object (its own suite does that) and its model is "q pushes the whole
+// GraphicsState value, TextState with TextMatrix/TextLineMatrix included, Q pops it". ISO gives such
+// programs no meaning (and lists Tm/Tlm as text-object parameters, not graphics-state parameters), so
+// for them - descriptor token qintext=y - the reference states tabula's pinned model: a q ... Q pair
+// balanced inside one text object restores Tm and Tlm together with the rest of the state.
+type saved struct {
+	gs      gstate
+	tm, tlm mat
+	dirty   bool
+	inText  bool // the q was executed inside a text object
 }
 
 // expect is what the model says about one text-showing operator.
@@ -84,7 +101,7 @@ type expect struct {
 type machine struct {
 	v       variant
 	gs      gstate
-	stack   []gstate
+	stack   []saved
 	tm, tlm mat
 	inText  bool
 	dirty   bool // Tm was advanced by a show since it was last set from Tlm / Tm operator
@@ -93,6 +110,8 @@ type machine struct {
 	fdepth  int
 	invalid string // set when the program is not a valid one (generator bug)
 	maxQ    int
+	textQ   bool // the program may use q/Q inside text objects (balanced within the text object)
+	qInText bool // it did
 	// observations used for outcome classes
 	restoredCTM, restoredText bool
 }
@@ -157,20 +176,31 @@ func (m *machine) run(ops []op) {
 		}
 		switch o.k {
 		case "q":
-			if m.needPage(o) {
-				m.stack = append(m.stack, m.gs)
+			if m.textQ || m.needPage(o) {
+				m.stack = append(m.stack, saved{m.gs, m.tm, m.tlm, m.dirty, m.inText})
 				if len(m.stack) > m.maxQ {
 					m.maxQ = len(m.stack)
 				}
+				if m.inText {
+					m.qInText = true
+				}
 			}
 		case "Q":
-			if m.needPage(o) {
+			if m.textQ || m.needPage(o) {
 				if len(m.stack) == 0 {
 					m.invalid = "unbalanced Q"
 					return
 				}
+				top := m.stack[len(m.stack)-1]
+				if top.inText != m.inText {
+					m.invalid = "Q does not match a q of the same text object / page level"
+					return
+				}
 				old := m.gs
-				m.gs = m.stack[len(m.stack)-1]
+				m.gs = top.gs
+				if !m.v.keepTm {
+					m.tm, m.tlm, m.dirty = top.tm, top.tlm, top.dirty
+				}
 				m.stack = m.stack[:len(m.stack)-1]
 				if old.ctm != m.gs.ctm {
 					m.restoredCTM = true
@@ -193,9 +223,9 @@ func (m *machine) run(ops []op) {
 					return
 				}
 				// §8.10.1: save the graphics state, concatenate /Matrix with the CTM, paint, restore
-				saved := m.gs
+				before := m.gs
 				depth := len(m.stack)
-				m.stack = append(m.stack, m.gs)
+				m.stack = append(m.stack, saved{m.gs, m.tm, m.tlm, m.dirty, false})
 				if len(m.stack) > m.maxQ {
 					m.maxQ = len(m.stack)
 				}
@@ -210,10 +240,12 @@ func (m *machine) run(ops []op) {
 					return
 				}
 				m.stack = m.stack[:depth]
-				if saved.ctm != m.gs.ctm {
+				if before.ctm != m.gs.ctm {
 					m.restoredCTM = true
 				}
-				m.gs = saved
+				m.gs = before
+				// the form's text objects leave Tm/Tlm behind exactly as a text object of the page would;
+				// they are dead until the next BT
 			}
 		case "BT":
 			if m.needPage(o) {
@@ -223,6 +255,10 @@ func (m *machine) run(ops []op) {
 			}
 		case "ET":
 			if m.needText(o) {
+				if len(m.stack) > 0 && m.stack[len(m.stack)-1].inText {
+					m.invalid = "ET with an open q of this text object"
+					return
+				}
 				m.inText = false
 			}
 		case "Tf":
@@ -286,6 +322,7 @@ func (m *machine) run(ops []op) {
 // simulate runs a whole program (page level) under the given model variant.
 func simulate(p *program, v variant) *machine {
 	m := newMachine(v, p.forms)
+	m.textQ = p.textQ
 	m.run(p.ops)
 	if m.invalid == "" && (m.inText || len(m.stack) != 0) {
 		m.invalid = "program ends inside a text object or with unbalanced q"
